@@ -632,6 +632,12 @@ fn atomic_increment(i: &AtomicUsize) -> Option<usize> {
             continue;
         }
         match i.compare_exchange_weak(prev, prev + 1, Ordering::Relaxed, Ordering::Relaxed) {
+            #[cfg(specs_verif)]
+            Ok(x) => {
+                crate::verif::yield_point("atomic_increment.after_cas");
+                return Some(x);
+            }
+            #[cfg(not(specs_verif))]
             Ok(x) => return Some(x),
             Err(next_prev) => prev = next_prev,
         }
@@ -654,6 +660,12 @@ fn atomic_decrement(i: &AtomicUsize) -> Option<usize> {
             continue;
         }
         match i.compare_exchange_weak(prev, prev - 1, Ordering::Relaxed, Ordering::Relaxed) {
+            #[cfg(specs_verif)]
+            Ok(x) => {
+                crate::verif::yield_point("atomic_decrement.after_cas");
+                return Some(x);
+            }
+            #[cfg(not(specs_verif))]
             Ok(x) => return Some(x),
             Err(next_prev) => prev = next_prev,
         }
